@@ -331,6 +331,14 @@ func runCheck(args []string) int {
 	for _, x := range ext {
 		assumptions = append(assumptions, "extern contract assumed: "+x)
 	}
+	var ap []string
+	for k := range e.assumedPosts {
+		ap = append(ap, k)
+	}
+	sort.Strings(ap)
+	for _, k := range ap {
+		assumptions = append(assumptions, "postcondition assumed (meaning of a primitive, not provable from its body): "+k)
+	}
 	trusted := append([]string{"go/types + go/ssa (x/tools v0.29.0) SSA construction", "govc VC generator (/verif/govc)", "z3 4.8.12, z3 5.1.0, cvc5 1.0 (portfolio; unsat from one, sat from none)"}, cfg.TrustedBase...)
 	cov := map[string]interface{}{
 		"obligations":              total,
